@@ -274,15 +274,23 @@ Definition oneof_mem (obj : val) (vs : list val) : res bool :=
 Definition sizer := ctx -> path -> istream -> res Z.
 
 (* _actualsize: sizeof, except that Prefixed measures itself by reading its length field *)
-Definition actualsize_with (P : con -> parser) (c : con) : sizer := fun cx p s =>
-  match c with
-  | CPrefixed lc c' incl =>
-      let* (lv, s1) := P lc cx p s in
-      let* n := vint_of lv in
-      let* n := (if incl then let* k := sizeof lc cx p in Ok (n - k)%Z else Ok n) in
-      Ok ((itell s1 - itell s) + n)%Z
-  | _ => sizeof c cx p
-  end.
+(* sc._actualsize(stream, context, path): the default is the static size; Prefixed measures its region; Renamed and the
+   adapters defer to their subcon (instance-level overrides -- the PrefixedArray macro -- are outside: reify refuses them) *)
+Definition prefixed_actualsize (P : con -> parser) (lc : con) (incl : bool) : sizer := fun cx p s =>
+  let* (lv, s1) := P lc cx p s in
+  let* n := vint_of lv in
+  let* n := (if incl then let* k := sizeof lc cx p in Ok (n - k)%Z else Ok n) in
+  Ok ((itell s1 - itell s) + n)%Z.
+
+Definition actualsize_with (P : con -> parser) : con -> sizer :=
+  fix asz (c : con) : sizer := fun cx p s =>
+    match c with
+    | CPrefixed lc _ incl => prefixed_actualsize P lc incl cx p s
+    | CRenamed n c' => asz c' cx (p ++ [n]) s
+    | CStringEncoded c' _ | CEnum c' _ | CFlagsEnum c' _ | CMapping c' _ | CHex c' | CHexDump c'
+    | CExprValidator c' _ | COneOf c' _ | CNoneOf c' _ | CExprAdapter c' _ _ => asz c' cx p s
+    | _ => sizeof c cx p
+    end.
 
 (* one member of LazyStruct._parse / LazyArray._parse: skip it when its size can be measured, parse it otherwise.
    state: index, offset, context, stream, offsets so far, cache so far *)
